@@ -1,5 +1,178 @@
 import GT.Base.JsonQ
-open Lean GT.J
+import GT.Base.QSqrt
+import GT.Model.Circle
+import GT.Driver.C13
+open Lean GT.J GT GT.Circle
 namespace GT.Driver.C14
-def ops : List (String × Handler) := []
+open GT.Driver.C13 (needSq V S S_toFn withVec)
+
+def ofPair (u : ℚ × ℚ) : Json := Json.arr #[ofQ u.1, ofQ u.2]
+
+/-- rows of a rational matrix as materialised vectors -/
+def rowsOf (k n : ℕ) (j : Json) (key : String) : R (Fin k → Fin n → ℚ) := do
+  let M ← matf k n j key
+  let d := DMat.ofMatrix M
+  return fun a b => d.toMatrix a b
+
+/-- staged `segmentIdeal` -/
+def segmentIdealS {n : ℕ} (r : ℚ → ℚ) (x₁ x₂ : Fin (n + 1) → ℚ) : V (n + 1) × V (n + 1) :=
+  (S (segmentIdeal r x₁ x₂).1, S (segmentIdeal r x₁ x₂).2)
+
+/-- `Segment._compute_aux_data` -/
+def segIdealOp (j : Json) : R Json := withVec j "x1" fun n x₁ => do
+  let x₂ ← vecf (n + 1) j "x2"
+  if segA x₁ x₂ == 0 then throw "DivZero"
+  if segDisc x₁ x₂ < 0 then throw "negative-discriminant"
+  needSq (segDisc x₁ x₂)
+  let s := segmentIdealS rsqrt x₁ x₂
+  return Json.arr #[ofQArr s.1.a, ofQArr s.2.a]
+
+/-- staged `poincareSphere` from a materialised Klein point -/
+def poincareSphereS {n : ℕ} (r : ℚ → ℚ) (m : Fin n → ℚ) : V n × ℚ :=
+  let p := S (k2p r m)
+  let e := S (sphereInv p.toFn)
+  (S (fun i => (p.toFn i + e.toFn i) / 2), r (nsq (fun i => p.toFn i - e.toFn i)) / 2)
+
+theorem poincareSphereS_eq {n : ℕ} (r : ℚ → ℚ) (m : Fin n → ℚ) :
+    ((poincareSphereS r m).1.toFn, (poincareSphereS r m).2) = poincareSphere r m := by
+  simp [poincareSphereS, poincareSphere]
+
+def sphereChecks {n : ℕ} (m : Fin n → ℚ) : R Unit := do
+  needSq |1 - nsq m|
+  let p := S (k2p rsqrt m)
+  if nsq p.toFn == 0 then throw "DivZero"
+  let e := S (sphereInv p.toFn)
+  needSq (nsq (fun i => p.toFn i - e.toFn i))
+
+/-- `Subspace.sphere_parameters(POINCARE)` (repaired): `ks` Klein coordinates of the ideal basis,
+`lam` the affine coordinates of the foot (the `pinv` contract, checked exactly here) -/
+def spherePoincareOp (j : Json) : R Json := do
+  let k ← natf j "k"
+  let n ← natf j "n"
+  match k with
+  | 0 => throw "empty basis"
+  | k' + 1 =>
+    let ks ← rowsOf (k' + 1) n j "ks"
+    let lam ← vecf (k' + 1) j "lam"
+    let m := S (affComb lam ks)
+    let sumOk := (∑ a, lam a) == 1
+    let orthOk := (List.finRange (k' + 1)).all fun a =>
+      dot (fun i => ks a i - ks 0 i) m.toFn == 0
+    sphereChecks m.toFn
+    let s := poincareSphereS rsqrt m.toFn
+    return Json.mkObj [("center", ofQArr s.1.a), ("radius", ofQ s.2), ("m", ofQArr m.a),
+      ("contract", Json.bool (sumOk && orthOk))]
+
+/-- `Subspace.sphere_parameters(HALFSPACE)` (repaired): `hs` half-space coordinates of the ideal
+basis, `lam` affine coordinates of the centre (contract, checked exactly) -/
+def sphereHalfspaceOp (j : Json) : R Json := do
+  let k ← natf j "k"
+  let n ← natf j "n"
+  match k with
+  | 0 => throw "empty basis"
+  | k' + 1 =>
+    let hs ← rowsOf (k' + 1) n j "hs"
+    let lam ← vecf (k' + 1) j "lam"
+    let c := S (affComb lam hs)
+    let sumOk := (∑ a, lam a) == 1
+    let circOk := (List.finRange (k' + 1)).all fun a =>
+      2 * dot (fun i => hs a i - hs 0 i) (fun i => c.toFn i - hs 0 i)
+        == nsq (fun i => hs a i - hs 0 i)
+    let radSq := nsq (fun i => hs 0 i - c.toFn i)
+    let rad : Json := if isSq radSq then ofQ (rsqrt radSq) else Json.null
+    return Json.mkObj [("center", ofQArr c.a), ("rad_sq", ofQ radSq), ("radius", rad),
+      ("contract", Json.bool (sumOk && circOk))]
+
+/-- `Horosphere.sphere_parameters`: `ideal`, `ref` are Poincaré coordinates; the half-space
+answer is computed from their images under `poincare_to_halfspace` -/
+def horoOp (j : Json) : R Json := do
+  let ia ← qArr (← field j "ideal")
+  match ia.size with
+  | 0 => throw "empty vector"
+  | n + 1 =>
+    let ideal ← vec (n + 1) (.arr (ia.map ofQ))
+    let ref ← vecf (n + 1) j "ref"
+    if 1 - dot ideal ref == 0 then throw "DivZero"
+    let hp := horoPoincare ideal ref
+    let dI := nsq (Fin.tail ideal) + (ideal 0 - 1) * (ideal 0 - 1)
+    let dR := nsq (Fin.tail ref) + (ref 0 - 1) * (ref 0 - 1)
+    if dI == 0 || dR == 0 then
+      return Json.mkObj [("p_center", ofVec hp.1), ("p_radius", ofQ hp.2), ("h_center", Json.null)]
+    let hi := S (p2h ideal)
+    let hr := S (p2h ref)
+    if hr.toFn (Fin.last n) == 0 then throw "DivZero"
+    let hh := horoHalfspace hi.toFn hr.toFn
+    return Json.mkObj [("p_center", ofVec hp.1), ("p_radius", ofQ hp.2),
+      ("h_center", ofVec hh.1), ("h_radius", ofQ hh.2), ("h_ideal", ofQArr hi.a), ("h_ref", ofQArr hr.a)]
+
+def pairf (j : Json) (key : String) : R (ℚ × ℚ) := do
+  let a ← qArr (← field j key)
+  if a.size ≠ 2 then throw "expected pair"
+  return (a[0]!, a[1]!)
+
+/-- arc selection on direction vectors -/
+def arcOp (j : Json) : R Json := do
+  let kind ← strf j "kind"
+  let u ← pairf j "u"
+  let v ← pairf j "v"
+  match kind with
+  | "short" => let s := shortArc u v; return Json.arr #[ofPair s.1, ofPair s.2]
+  | "r2l" => let s := rightToLeft u v; return Json.arr #[ofPair s.1, ofPair s.2]
+  | "horo" =>
+    let ref ← pairf j "ref"
+    let s := horoArc u v ref
+    return Json.arr #[ofPair s.1, ofPair s.2]
+  | _ => throw "unknown kind"
+
+/-- the whole of `Segment.circle_parameters(model)` in dimension 2 from the stored endpoint
+data: ideal endpoints (quadratic), their Klein coordinates, sphere through them (repaired code,
+`lamMid`), endpoint coordinates in the model, directions, arc selection -/
+def segCircleOp (j : Json) : R Json := do
+  let x₁ ← vecf 3 j "x1"
+  let x₂ ← vecf 3 j "x2"
+  let model ← strf j "model"
+  if segA x₁ x₂ == 0 then throw "DivZero"
+  if segDisc x₁ x₂ < 0 then throw "negative-discriminant"
+  needSq (segDisc x₁ x₂)
+  let ib := segmentIdealS rsqrt x₁ x₂
+  if ib.1.toFn 0 == 0 || ib.2.toFn 0 == 0 || x₁ 0 == 0 || x₂ 0 == 0 then throw "GeometryError"
+  needSq |1 - nsq (klein x₁)|
+  needSq |1 - nsq (klein x₂)|
+  if model == "poincare" then
+    let k₁ := S (klein ib.1.toFn)
+    let k₂ := S (klein ib.2.toFn)
+    let ks : Fin 2 → Fin 2 → ℚ := ![k₁.toFn, k₂.toFn]
+    let m := S (affComb lamMid ks)
+    sphereChecks m.toFn
+    let s := poincareSphereS rsqrt m.toFn
+    let e₁ := S (getPoincare rsqrt x₁)
+    let e₂ := S (getPoincare rsqrt x₂)
+    let arc := shortArc (dirOf s.1.toFn e₁.toFn) (dirOf s.1.toFn e₂.toFn)
+    return Json.mkObj [("center", ofQArr s.1.a), ("radius", ofQ s.2),
+      ("dirs", Json.arr #[ofPair arc.1, ofPair arc.2])]
+  else if model == "halfspace" then
+    needSq |1 - nsq (klein ib.1.toFn)|
+    needSq |1 - nsq (klein ib.2.toFn)|
+    let bad (x : Fin 3 → ℚ) : Bool :=
+      let p := getPoincare rsqrt x
+      nsq (Fin.tail p) + (p 0 - 1) * (p 0 - 1) == 0
+    if bad ib.1.toFn || bad ib.2.toFn || bad x₁ || bad x₂ then throw "DivZero"
+    let h₁ := S (getHalfspace (n := 1) rsqrt ib.1.toFn)
+    let h₂ := S (getHalfspace (n := 1) rsqrt ib.2.toFn)
+    let hs : Fin 2 → Fin 2 → ℚ := ![h₁.toFn, h₂.toFn]
+    let sp := halfspaceSphere rsqrt lamMid hs
+    let c := S sp.1
+    let radSq := nsq (fun i => hs 0 i - c.toFn i)
+    needSq radSq
+    let e₁ := S (getHalfspace (n := 1) rsqrt x₁)
+    let e₂ := S (getHalfspace (n := 1) rsqrt x₂)
+    let arc := rightToLeft (dirOf c.toFn e₁.toFn) (dirOf c.toFn e₂.toFn)
+    return Json.mkObj [("center", ofQArr c.a), ("radius", ofQ sp.2),
+      ("dirs", Json.arr #[ofPair arc.1, ofPair arc.2])]
+  else throw "GeometryError"
+
+def ops : List (String × Handler) :=
+  [("c14.segment_ideal", segIdealOp), ("c14.sphere_poincare", spherePoincareOp),
+   ("c14.sphere_halfspace", sphereHalfspaceOp), ("c14.horo", horoOp), ("c14.arc", arcOp),
+   ("c14.segment_circle", segCircleOp)]
 end GT.Driver.C14
